@@ -8,6 +8,7 @@ import NormModel.Model.Cli
 import NormModel.Model.Lexer
 import NormModel.Model.Engine
 import NormModel.Model.Header
+import NormModel.Model.Guard
 import NormModel.Generated.HeaderRegex
 open Lean Norm
 
@@ -28,6 +29,21 @@ def headerHandle (op : String) (j : Json) : Except String Json := do
       pure (⟨isC, v⟩ : HEvent))
     let st := headerRun (searchNfa Generated.headerRegex) evs
     pure (Json.mkObj [("errors", Json.num (st.errors : JsonNumber)), ("parsed", Json.bool st.parsed)])
+  | "guard" =>
+    let chars := fun (k : String) => do
+      let a ← (j.getObjValD k).getArr?
+      a.toList.mapM (fun x => do let n ← x.getNat?; pure (Char.ofNat n))
+    let base ← chars "base"
+    let kind ← (j.getObjValD "dir").getStr?
+    let dir ← match kind with
+      | "ifndef" => do pure (GuardDir.ifndef (← chars "sym"))
+      | "endif" => do pure (GuardDir.endif (← (j.getObjValD "after").getBool?))
+      | _ => pure GuardDir.other
+    let inp : GuardIn := ⟨← (j.getObjValD "isHeader").getBool?, dir, ← (j.getObjValD "indent").getNat?,
+      ← (j.getObjValD "prot").getBool?, ← (j.getObjValD "defined").getBool?, ← (j.getObjValD "codeBefore").getBool?⟩
+    let out := guardCheck (guardOf base) inp
+    pure (Json.mkObj [("codes", Json.arr (out.codes.map Json.str).toArray), ("prot", Json.bool out.prot),
+                      ("guard", Json.str (String.ofList (guardOf base)))])
   | _ => throw ("unknown op " ++ op)
 
 def engineHandle (op : String) (j : Json) : Except String Json := do
